@@ -33,6 +33,7 @@ class BuiltinMixin:
             m = getattr(self, f"m_{kind}_{meth}", None)
             if m is None:
                 raise Unsupported(f"method {name} is not modelled (line {getattr(node, 'lineno', '?')})")
+            self._kwargs_guard(m, name, kwargs, node)
             return m(st, fv.self, args, kwargs)
         m = getattr(self, "b_" + name.replace(".", "_"), None)
         if m is None:
@@ -43,7 +44,29 @@ class BuiltinMixin:
                     st.log.append(("warn", name, tuple(args)))
                 return self.opaque_call(st, "ext:" + name, list(args) + list(kwargs.values()))
             raise Unsupported(f"builtin {name} is not modelled (line {getattr(node, 'lineno', '?')})")
+        self._kwargs_guard(m, name, kwargs, node)
         return m(st, args, kwargs)
+
+    _KW_AWARE: dict = {}
+
+    def _kwargs_guard(self, m, name, kwargs, node):
+        """a model that never looks at its keyword arguments must not be handed any: silently
+        ignoring `start=2`, `key=f`, `default=x` ... would be an unsound model"""
+        if not kwargs:
+            return
+        f = getattr(m, "__func__", m)
+        aware = self._KW_AWARE.get(f)
+        if aware is None:
+            import inspect
+
+            try:
+                src = inspect.getsource(f)
+                aware = src.count("kwargs") > 1
+            except (OSError, TypeError):
+                aware = True
+            self._KW_AWARE[f] = aware
+        if not aware:
+            raise Unsupported(f"keyword arguments {sorted(kwargs)} of {name} are not modelled (line {getattr(node, 'lineno', '?')})")
 
     # ------------------------------------------------------------ type tests
 
@@ -238,7 +261,9 @@ class BuiltinMixin:
         return self.get_attr(st, args[0], n, raw=True)
 
     def b_functools_lru_cache(self, st, args, kwargs):
-        # memoisation is modelled as transparent here (purity / key faithfulness: C17)
+        # memoisation is modelled as transparent here (purity / key faithfulness: C17); the
+        # capacity in kwargs (maxsize=...) does not change results and is deliberately ignored
+        _ = kwargs
         return [(st, VBuiltin("identity_decorator"))]
 
     def b_identity_decorator(self, st, args, kwargs):
@@ -746,11 +771,14 @@ class BuiltinMixin:
         return out
 
     def b_enumerate(self, st, args, kwargs):
+        start_v = args[1] if len(args) > 1 else kwargs.get("start", const(0))
+        ok_s, start = concrete(start_v)
+        if not ok_s or not isinstance(start, int):
+            raise Unsupported("enumerate with a symbolic start")
         items = self.concrete_items(st, args[0])
         if items is not None:
-            start = 0
             return [(st, st.alloc(HList(items=[VTuple((const(i + start), x)) for i, x in enumerate(items)])))]
-        if self.as_seq(st, args[0]) is not None and len(args) == 1:
+        if self.as_seq(st, args[0]) is not None and len(args) == 1 and start == 0 and not kwargs:
             return [(st, VConst(("enumerate", args[0])))]
         raise Unsupported("enumerate over symbolic iterable")
 
@@ -1486,7 +1514,11 @@ class BuiltinMixin:
         src = _unescape(text.as_string())
         pieces = [(st, [])]
         pos = 0
-        for m in self._regex_compiled(rx).finditer(src):
+        try:
+            compiled = self._regex_compiled(rx)
+        except Exception:  # noqa: BLE001  (pattern not a constant: abstract model)
+            return [(st, VStr(z3.Function("re_sub$" + rx.py[2], S, S, S)(z3.StringVal("<fn>"), text)))]
+        for m in compiled.finditer(src):
             lit = src[pos:m.start()]
             pos = m.end()
             groups = {"0": const(m.group(0))}
@@ -1750,6 +1782,8 @@ class BuiltinMixin:
         return self._path_fs_bool(st, p, "is_dir")
 
     def m_Path_resolve(self, st, p, args, kwargs):
+        # kwargs: strict=False is the default; strict=True could only add FileNotFoundError (an
+        # OSError, already among the modelled outcomes)
         out = []
         for s, r in self.opaque_call(st, "Path.resolve", [p], may_raise=("OSError",)):
             out.append((s, r if isinstance(r, Raised) else self.mk_path(s, r.t)))
